@@ -235,7 +235,7 @@ func cmdCheck(args []string) int {
 					}
 					sb.WriteString(l + "\n")
 				}
-				r := Solve(sb.String(), smtDir, fmt.Sprintf("f%04d_%s", i, sanitize(o.Name)), 5*time.Second, true)
+				r := Solve(sb.String(), smtDir, fmt.Sprintf("f%04d_%s", i, sanitize(o.Name)), 8*time.Second, true)
 				if r.Verdict == "unsat" {
 					r.Solver += "/frame-slice"
 					o.Result = r
@@ -243,7 +243,7 @@ func cmdCheck(args []string) int {
 			}
 			if o.Result.Verdict != "unsat" && o.Expect == "unsat" && !noSlice {
 				if sq, ok := sliceQuery(o.Query); ok && len(sq) < len(o.Query)*3/4 {
-					r := Solve(sq, smtDir, fmt.Sprintf("s%04d_%s", i, sanitize(o.Name)), 3*time.Second, true)
+					r := Solve(sq, smtDir, fmt.Sprintf("s%04d_%s", i, sanitize(o.Name)), 6*time.Second, true)
 					if r.Verdict == "unsat" {
 						r.Solver += "/sliced"
 						o.Result = r
@@ -251,7 +251,7 @@ func cmdCheck(args []string) int {
 				}
 			}
 			if o.Result.Verdict != "unsat" && o.Expect == "unsat" && o.QueryInst != "" {
-				r := Solve(o.QueryInst, smtDir, fmt.Sprintf("i%04d_%s", i, sanitize(o.Name)), 4*time.Second, true)
+				r := Solve(o.QueryInst, smtDir, fmt.Sprintf("i%04d_%s", i, sanitize(o.Name)), 8*time.Second, true)
 				if r.Verdict == "unsat" {
 					r.Solver += "/instantiated"
 					o.Result = r
@@ -261,7 +261,7 @@ func cmdCheck(args []string) int {
 			if o.Result.Verdict != "unsat" && o.Expect == "unsat" && strings.Contains(o.Query, "\n(assert (= let_") {
 				// a short attempt on the full query first: most obligations need the let definitions
 				triedQuick = true
-				r := Solve(o.Query, smtDir, fmt.Sprintf("q%04d_%s", i, sanitize(o.Name)), 2*time.Second, true)
+				r := Solve(o.Query, smtDir, fmt.Sprintf("q%04d_%s", i, sanitize(o.Name)), 4*time.Second, true)
 				if r.Verdict == "unsat" {
 					o.Result = r
 				}
@@ -277,7 +277,7 @@ func cmdCheck(args []string) int {
 					}
 					sb.WriteString(l + "\n")
 				}
-				r := Solve(sb.String(), smtDir, fmt.Sprintf("l%04d_%s", i, sanitize(o.Name)), 4*time.Second, true)
+				r := Solve(sb.String(), smtDir, fmt.Sprintf("l%04d_%s", i, sanitize(o.Name)), 8*time.Second, true)
 				if r.Verdict == "unsat" {
 					r.Solver += "/opaque-lets"
 					o.Result = r
